@@ -217,6 +217,14 @@ def rule_d(chk: Check, eng: Engine) -> None:
             conj = test.values if isinstance(test, ast.BoolOp) and isinstance(test.op, ast.And) else [test]
             succ = [t for t in conj if "success" in norm(t)]
             lazy_guard = any("lazy" in norm(t) for t in conj) or any(isinstance(a, ast.If) and "lazy" in norm(a.test) for a in _ancestors(pm, b))
+            if not lazy_guard:
+                # eager mode has left the function before the loop: `if not self.lazy: return [...]` as an earlier statement of the same function body
+                top = next((a for a in _ancestors(pm, b) if a in fn.node.body), None)  # type: ignore[attr-defined]
+                if top is not None:
+                    for st in fn.node.body[:fn.node.body.index(top)]:  # type: ignore[attr-defined]
+                        if isinstance(st, ast.If) and isinstance(st.test, ast.UnaryOp) and isinstance(st.test.op, ast.Not) and "lazy" in norm(st.test.operand) \
+                                and st.body and isinstance(st.body[-1], (ast.Return, ast.Raise)) and not st.orelse:
+                            lazy_guard = True
             if len(succ) != 1:
                 chk.bad("R07-d", eng.relfile(fn), iff.lineno, fn.fq, f"early exit `{short(test)}` does not test the element's verdict", "lazy evaluation stops for another reason than a decided verdict", keyparts=f"break-cond|{c.name}")
                 continue
